@@ -570,6 +570,21 @@ class AFile(Native):
         self.writes.append(x)
         self.world.event('file-write', str(self.path), x)
 
+    def writelines(self, xs):
+        for x in xs:
+            self.write(x)
+
+    def flush(self):
+        if self.closed:
+            raise FoldRaise('ValueError', 'I/O operation on closed file')
+
+    def fileno(self):
+        return 3
+
+    @property
+    def name(self):
+        return str(self.path)
+
     def __enter__(self):
         return self
 
